@@ -55,6 +55,23 @@ def gen_conv(rng, c, feature=None):
             'bias': True, 'bn': rng.random() < 0.35, 'wmag': rng.choice([0.2, 0.5, 1.0]), 'bmag': rng.choice([0.05, 0.5, 2.0]), 'feat': f}
 
 
+OPT_BITS = [8, 16, 24, 28, 32]
+
+
+def make_hot(rng, spec):
+    """8-bit activations, large weights and small clips (outputs spread over the whole range and saturate, large
+    accumulators), shift_pos > 24: the selected shift is >= 24 and acc*scale + add_bias exceeds 32 bits"""
+    spec.update(abits=8, amix=None, stale=None, clip_lo=0.3, clip_hi=1.5, wbits=rng.choice([4, 8, 8]),
+                kwargs={'scale_bit': rng.choice([24, 28, 32]), 'shift_pos': rng.choice([28, 32])})
+    for L in spec['layers']:
+        L['wmag'] = rng.choice([1.0, 2.0])
+        L['bmag'] = rng.choice([0.05, 0.5])
+        if not L['dw']:
+            L['cout'] = rng.choice([4, 5, 6])
+    spec['shape'] = 'hot:' + str(spec.get('shape'))
+    return spec
+
+
 def gen_spec(rng, i):
     for _ in range(200):
         cin = rng.choice([1, 2, 3])
@@ -101,8 +118,15 @@ def gen_spec(rng, i):
             if rng.random() < 0.35:
                 head['hidden'] = rng.choice([3, 5, 8])
                 head['hidden_bias'] = bias_mode == 'all' or (bias_mode == 'mixed' and rng.random() < 0.5)
-        kw = rng.choice([{}, {}, {'scale_bit': 8, 'shift_pos': 16}, {'scale_bit': 16, 'shift_pos': 32}, {'scale_bit': 32, 'shift_pos': 32},
-                         {'scale_bit': 4, 'shift_pos': 8}, {'scale_bit': 12, 'shift_pos': 24}])
+        r_ = rng.random()
+        if r_ < 0.3:
+            kw = {}
+        elif r_ < 0.85:      # scale_bit and shift_pos independently
+            kw = {'scale_bit': rng.choice(OPT_BITS), 'shift_pos': rng.choice(OPT_BITS)}
+            if rng.random() < 0.2:
+                del kw[rng.choice(['scale_bit', 'shift_pos'])]
+        else:
+            kw = rng.choice([{'scale_bit': 4, 'shift_pos': 8}, {'scale_bit': 12, 'shift_pos': 24}])
         return {'seed': rng.randrange(1 << 30), 'cin': cin, 'hw': hw, 'wbits': rng.choice([2, 4, 8]), 'abits': rng.choice([2, 4, 8]),
                 'layers': layers, 'head': head, 'kwargs': kw, 'shape': shape, 'bias_mode': bias_mode,
                 'clip_lo': rng.choice([0.4, 0.4, 0.05]), 'clip_hi': 8.0,
@@ -429,6 +453,14 @@ def run(ctx):
          'layers': [dict(kind='conv', cout=3, k=[3, 3], stride=[1, 1], pad=[1, 1], dil=[1, 1], dw=True, bias=True, bn=False, feat='plain'),
                     dict(kind='conv', cout=4, k=[1, 1], stride=[1, 1], pad=[0, 0], dil=[1, 1], dw=False, bias=False, bn=False, feat='plain')],
          'head': {'pool': True, 'bias': False, 'out': 2, 'hidden': 3, 'hidden_bias': False}},
+        {'seed': 31, 'cin': 3, 'hw': [8, 8], 'wbits': 8, 'abits': 8, 'kwargs': {'scale_bit': 32, 'shift_pos': 32}, 'shape': 'corpus', 'bias_mode': 'none', 'clip_lo': 0.3, 'clip_hi': 1.5,
+         'layers': [dict(kind='conv', cout=5, k=[3, 3], stride=[1, 1], pad=[1, 1], dil=[1, 1], dw=False, bias=False, bn=False, feat='plain', wmag=1.0),
+                    dict(kind='conv', cout=4, k=[3, 3], stride=[2, 2], pad=[1, 1], dil=[1, 1], dw=False, bias=False, bn=False, feat='plain', wmag=2.0)],
+         'head': {'pool': False, 'bias': False, 'out': 3, 'hidden': 8, 'hidden_bias': False}},
+        {'seed': 32, 'cin': 3, 'hw': [8, 8], 'wbits': 8, 'abits': 8, 'kwargs': {'scale_bit': 28, 'shift_pos': 28}, 'shape': 'corpus', 'bias_mode': 'all', 'clip_lo': 0.3, 'clip_hi': 1.5,
+         'layers': [dict(kind='conv', cout=5, k=[3, 3], stride=[1, 1], pad=[1, 1], dil=[1, 1], dw=False, bias=True, bn=True, feat='plain', wmag=2.0, bmag=0.05),
+                    dict(kind='conv', cout=5, k=[3, 3], stride=[1, 1], pad=[1, 1], dil=[1, 1], dw=True, bias=True, bn=False, feat='plain', wmag=1.0, bmag=0.05)],
+         'head': {'pool': True, 'bias': True, 'out': 3, 'hidden': 8, 'hidden_bias': True, 'bmag': 0.05}},
         {'seed': 15, 'cin': 2, 'hw': [6, 6], 'wbits': 8, 'abits': 8, 'kwargs': {}, 'shape': 'corpus', 'bias_mode': 'all', 'clip_lo': 0.4, 'clip_hi': 8.0,
          'layers': [dict(kind='conv', cout=3, k=[3, 3], stride=[1, 1], pad=[1, 1], dil=[1, 1], dw=False, bias=True, bn=False, feat='plain'),
                     dict(kind='conv', cout=2, k=[3, 3], stride=[1, 1], pad=[0, 0], dil=[1, 1], dw=False, bias=True, bn=False, feat='plain')],
@@ -441,6 +473,9 @@ def run(ctx):
     for i in range(nnet):
         specs.append(gen_spec(ctx.rng, i))
     jobs = [with_backend(s, be) for s in specs for be in ('MATCH', 'MAUPITI')]
+    # MATCH with shift_pos > 24, 8-bit activations and large accumulators (32-bit intermediate exceeded)
+    for i in range(6 if ctx.quick else 50):
+        jobs.append(with_backend(make_hot(ctx.rng, gen_spec(ctx.rng, 3 * 10 ** 6 + i)), 'MATCH'))
     # declared-unsupported stream: MATCH rejects dilation on both axes / dilation with a 2-D kernel (ValueError by design)
     unsupported = []
     for i in range(2 if ctx.quick else 8):
@@ -502,6 +537,15 @@ def run(ctx):
                 ctx.dist['layer:p_in!=p_out:%s' % spec['backend']] += 1
             if rec['last'] and rec['conv']:
                 ctx.dist['layer:final-conv:%s' % spec['backend']] += 1
+            if spec['backend'] == 'MATCH' and not rec['last'] and rec.get('samples'):
+                sh_ = int(rec['shift'][0])
+                big = max(abs(a_ * rec['scale'][sm['c']] + rec['add_bias'][sm['c']]) for sm in rec['samples'] for a_ in sm['acc'])
+                if sh_ >= 24:
+                    ctx.dist['layer:MATCH:shift>=24'] += 1
+                if big > 2 ** 31:
+                    ctx.dist['layer:MATCH:|acc*scale+add_bias|>2^31'] += 1
+                    if rec['out_max'] > 2 ** (31 - sh_):
+                        ctx.dist['layer:MATCH:output>2^(31-shift)'] += 1
     ctx.extra['layers_observed'] = nlayers
     for res in unres:
         st = res['status']
